@@ -669,13 +669,13 @@ class Engine:
                 return [(st, fn, fid, t['target'])]
         return None
 
-    def call_value_k(self, st, fn, fid, f, cargs, k):
+    def call_value_k(self, st, fn, fid, f, cargs, k, inline_fnitems=False):
         """call function value f (closure aggregate or fn item) with cargs, then continue with k(state, result) -> work list"""
         cf = self._closure_fn(f)
         if cf is None:
             if isinstance(f, tuple) and f and f[0] == 'fnitem':
                 gf = self.facts.fns.get(f[1])
-                if gf is not None and gf.kind != 'Closure' and self._inlinable(st, gf, f[1]) and f[1] not in self.opaque and f[1] not in self.readonly \
+                if inline_fnitems and gf is not None and gf.kind != 'Closure' and self._inlinable(st, gf, f[1]) and f[1] not in self.opaque and f[1] not in self.readonly \
                         and gf.arg_count == len(cargs):
                     # a named function handed to an adapter (`flat_map(expand)`): walked like a closure without environment
                     nfid = next(self.fid)
@@ -933,7 +933,8 @@ class Engine:
             return [o]
 
         def call_closure(s_, c, cargs, k):
-            return self.call_value_k(s_, fn, fid, c, cargs, k)
+            # a named function handed to an iterator adapter is walked like a closure; elsewhere (Option::map(Piece::from_usize)) it stays a call term
+            return self.call_value_k(s_, fn, fid, c, cargs, k, inline_fnitems=True)
 
         def consume(s_, elem, pos, cont):
             if base == 'for_each':
